@@ -28,6 +28,8 @@ KINDS = [
     ("aarch64", "tx2", "ldr q1, [x1], #16\nldr q2, [x1, #32]!\nfadd v3.2d, v1.2d, v2.2d\n", "post/pre-indexed loads"),
     ("aarch64", "tx2", "str q1, [x2, x3]\nstr d1, [x2], #8\n", "stores"),
     ("aarch64", "tx2", "ldr d0, [x1, #8]\nfmadd d1, d0, d0, d1\nnosuch x1, x2\n", "load + unknown"),
+    ("x86", "zen1", ".L2:\nvmovsd 8(%rdi), %xmm0\nvmulsd %xmm0, %xmm1, %xmm0\nvmovsd %xmm0, 8(%rdi)\naddq $1, %rcx\ncmpq %rdx, %rcx\njne .L2\n", "store reloaded in the next iteration"),
+    ("x86", "zen1", "movq (%rsi,%rcx,8), %rdi\naddq $16, %rax\nvmovsd %xmm0, (%rax)\n", "writes address registers"),
 ]
 _BASE = {}
 
@@ -47,9 +49,40 @@ def _baseline(k, fixed):
     return _BASE[(k, fixed)]
 
 
+def _process_state():
+    """Process-wide mutable state of the osaca package besides the model objects: default-argument
+    objects of every function/method, class-level dict/list/set attributes, module-level ones."""
+    import inspect
+    import sys
+    from collections import namedtuple
+    MI = namedtuple("MI", "name")
+    out = []
+    for modname in sorted(k for k in list(sys.modules) if k == "osaca" or k.startswith("osaca.")):     # every loaded osaca module
+        mod = sys.modules[modname]
+        mi = MI(modname)
+        if mod is None or modname.startswith("osaca.data"):
+            continue
+        for name, val in list(vars(mod).items()):
+            if name.startswith("__"):
+                continue
+            if isinstance(val, (dict, list, set)):
+                out.append((mi.name, name, repr(val)))
+            elif inspect.isfunction(val) and val.__module__ == mod.__name__ and val.__defaults__:
+                out.append((mi.name, name, repr(val.__defaults__)))
+            elif inspect.isclass(val) and val.__module__ == mod.__name__:
+                for an, a in vars(val).items():
+                    f = a.__func__ if isinstance(a, (staticmethod, classmethod)) else a
+                    if inspect.isfunction(f):
+                        if f.__defaults__:
+                            out.append((mi.name, val.__name__ + "." + an, repr(f.__defaults__)))
+                    elif isinstance(a, (dict, list, set)) and an != "_runtime_cache":
+                        out.append((mi.name, val.__name__ + "." + an, repr(a)))
+    return out
+
+
 def _snapshot(env):
     m, sem = env
-    return (repr(m._data), repr(sem._isa_model._data), repr(InstructionForm.__init__.__defaults__))
+    return (repr(m._data), repr(sem._isa_model._data), repr(_process_state()))
 
 
 _ENVS = {}      # arch -> (env, pristine snapshot): reused across paths only while snapshot-equal to pristine
